@@ -3,8 +3,6 @@ package rules
 import (
 	"fmt"
 	"go/token"
-	"go/types"
-	"strings"
 
 	"golang.org/x/tools/go/ssa"
 
@@ -13,10 +11,10 @@ import (
 
 func init() {
 	register(&PropDef{ID: "C14", Level: "other", Run: runC14,
-		Explanation: "Reclamation structure of UDP associations on all paths: (TEARDOWN) in the association goroutine, after the reply loop returns, removal is reported exactly once, the entry is deleted and the socket returned by the " +
+		Explanation: "Reclamation structure of UDP associations on all paths (types and members found by shape, not by name): (TEARDOWN) in the association goroutine, after the reply loop returns, removal is reported exactly once, the entry is deleted and the socket returned by the " +
 			"deletion is closed; the reply loop is left only through the timeout classification of a read error; (SOLEDELETER) entries are removed from the table only by the deletion helper, which only association goroutines call, " +
-			"and inserted only by Add — otherwise the conditional close in the goroutine can miss its socket; (ARM) every write through an association extends the read deadline before the datagram is sent, on all paths " +
-			"(a write that skips it can leave the association without any deadline, so it is never reclaimed); (MONOTONE) a deadline derived from now+timeout is installed only on the After(readDeadline) edge and recorded, the only other " +
+			"and inserted only by Add's helper — otherwise the conditional close in the goroutine can miss its socket; (ARM) every write through an association extends the read deadline before the datagram is sent, on all paths " +
+			"(a write that skips it can leave the association without any deadline, so it is never reclaimed); (MONOTONE) a deadline derived from now+timeout is installed only on the After(current deadline) edge and recorded, the only other " +
 			"deadline write is the immediate fast-close inside the sync.Once reached from the read side; (SHUTDOWN) the datagram loop defers the table's Close before its first read and Close visits every entry under the write lock; " +
 			"(DNS) the DNS timeout constant is 17 s and DNS is decided from port 53 of the address being written.",
 		NotDecided: "every 'at least / within bounded time' clause (timing); kernel behaviour of deadlines.",
@@ -32,196 +30,245 @@ func runC14(c *Ctx) {
 	ruleDNS(c)
 }
 
-const natmapT = "service.natmap"
-const natconnT = "service.natconn"
-
 func assocGoroutines(c *Ctx) []*ssa.Function {
-	var out []*ssa.Function
-	for _, g := range c.P.GoSites() {
-		if g.Fn.Signature.Recv() != nil && eng.TypeName(g.Fn.Signature.Recv().Type()) == natmapT {
-			for _, t := range g.Targets {
-				if c.P.InRepo(t) {
-					out = append(out, t)
-				}
-			}
-		}
+	m := getUDPModel(c, "ANCHOR")
+	if m == nil {
+		return nil
 	}
-	return out
+	return m.assocGo
 }
 
-// replyLoopFn: the function containing the loop that reads replies from the association socket (natconn.ReadFrom).
 func replyLoopFns(c *Ctx) []*ssa.Function {
-	var out []*ssa.Function
-	for _, f := range c.P.FnsIn("service") {
-		if f.Parent() != nil {
-			continue
-		}
-		for _, g := range eng.Family(f) {
-			for _, cl := range eng.Calls(g) {
-				if eng.CalleeName(cl.Common()) == "(*service.natconn).ReadFrom" {
-					out = append(out, f)
-					goto next
-				}
-			}
-		}
-	next:
+	m := getUDPModel(c, "ANCHOR")
+	if m == nil {
+		return nil
 	}
-	return out
+	return m.replyFns
 }
 
-// C14.TEARDOWN (shared with C18.CLOSEPAIR and C16.ENTRY)
+func isCallTo(c *Ctx, target *ssa.Function) func(ssa.Instruction) bool {
+	return func(ins ssa.Instruction) bool {
+		cl, ok := ins.(*ssa.Call)
+		return ok && callTo(c, cl, target)
+	}
+}
+
+// C14.TEARDOWN (shared with C18.CLOSEPAIR, C16.ENTRY, C04)
 func ruleTeardown(c *Ctx, rule string) {
 	p := c.P
-	gs := assocGoroutines(c)
-	if !c.Floor(rule, "association goroutines (go statements in natmap methods)", len(gs), 1) {
+	m := getUDPModel(c, rule)
+	if m == nil {
 		return
 	}
-	for _, g := range gs {
+	if !c.Floor(rule, "association goroutines (go statements in the table's Add)", len(m.assocGo), 1) {
+		return
+	}
+	for _, g := range m.assocGo {
 		key := short(g)
+		reg := c.NewRegion(g, 2, m.stopFn(c))
 		entry := eng.Point{B: g.Blocks[0]}
 		isRemove := func(ins ssa.Instruction) bool {
 			cl, ok := ins.(*ssa.Call)
 			return ok && eng.MethodName(&cl.Call) == "RemoveNatEntry"
 		}
-		mn, mx, _ := eng.CountOnPaths(entry, isRemove, nil)
+		lifted := liftMust(c, isRemove, nil)
+		may := liftMay(c, isRemove)
+		mn, _, _ := eng.CountOnPaths(entry, lifted, nil)
+		_, mx, _ := eng.CountOnPaths(entry, may, nil)
 		c.Check(rule, key+":removal-reported-exactly-once", p.Pos(g.Pos()), mn == 1 && mx == 1, fmt.Sprintf("the association goroutine reports removal %d..%d times on its paths (must be exactly once)", mn, mx))
-		// the reply loop call dominates the removal report
-		var loopCall ssa.Instruction
-		for _, cl := range eng.Calls(g) {
-			for _, callee := range repoCallees(c, cl) {
-				for _, rl := range replyLoopFns(c) {
-					if callee == rl {
-						loopCall = cl
-					}
+		// the reply loop runs before the removal report
+		isLoop := func(ins ssa.Instruction) bool {
+			cl, ok := ins.(*ssa.Call)
+			if !ok {
+				return false
+			}
+			for _, rl := range m.replyFns {
+				if callTo(c, cl, rl) {
+					return true
 				}
 			}
+			return false
 		}
-		if loopCall == nil {
-			c.Undecided(rule, key+":reply-loop-call", p.Pos(g.Pos()), "the association goroutine does not call the reply loop")
-			continue
-		}
-		for _, b := range g.Blocks {
-			for _, ins := range b.Instrs {
-				if isRemove(ins) {
-					c.CheckAt(rule, key+":removal-after-reply-loop", ins, eng.Dominates(loopCall, ins), "removal is reported before the reply loop has ended")
-				}
-			}
-		}
+		okOrder, bad := reg.BeforeDeep(isLoop, isRemove)
+		c.Check(rule, key+":removal-after-reply-loop", p.Pos(g.Pos()), okOrder, fmt.Sprintf("removal can be reported (%s) before the reply loop has run and ended", p.IPos(bad)))
 		// delete the entry, then close the socket the deletion returned
-		var del *ssa.Call
-		for _, cl := range eng.Calls(g) {
-			if call, ok := cl.(*ssa.Call); ok && eng.CalleeName(&call.Call) == "(*service.natmap).del" {
-				del = call
-			}
-		}
-		if del == nil {
+		dels := reg.FindCalls(func(_ string, call *ssa.Call) bool { return callTo(c, call, m.del) })
+		if len(dels) == 0 {
 			c.Check(rule, key+":entry-deleted", p.Pos(g.Pos()), false, "the association goroutine never deletes its table entry")
 			continue
 		}
-		okDel, _ := eng.MustPass(eng.After(loopCall), func(ins ssa.Instruction) bool { return ins == ssa.Instruction(del) })
-		c.CheckAt(rule, key+":entry-deleted", del, okDel, "after the reply loop the goroutine can exit without deleting its table entry")
-		_, nonNil := p.NilEdges(g, func(v ssa.Value) bool { return v == ssa.Value(del) })
-		isClose := func(ins ssa.Instruction) bool {
-			cl, ok := ins.(*ssa.Call)
-			if !ok || eng.MethodName(&cl.Call) != "Close" {
-				return false
-			}
-			r := eng.Receiver(&cl.Call)
-			return r != nil && p.AnyFrom(r, eng.Plain, func(v ssa.Value) bool { return v == ssa.Value(del) })
-		}
-		okClose := false
-		if len(nonNil) > 0 {
-			okClose = true
-			for _, e := range sortedEdges(nonNil) {
-				if ok, _ := eng.MustPass(edgePoint(e), isClose); !ok {
-					okClose = false
+		okDel, _ := reg.MustPassUp(entry, isCallTo(c, m.del))
+		c.Check(rule, key+":entry-deleted", p.Pos(g.Pos()), okDel, "the association goroutine can exit without deleting its table entry")
+		for _, del := range dels {
+			f := del.Parent()
+			_, nonNil := p.NilEdges(f, func(v ssa.Value) bool { return v == ssa.Value(del) })
+			isClose := func(ins ssa.Instruction) bool {
+				cl, ok := ins.(*ssa.Call)
+				if !ok || eng.MethodName(&cl.Call) != "Close" {
+					return false
 				}
+				r := eng.Receiver(&cl.Call)
+				return r != nil && p.AnyFrom(r, eng.Plain, func(v ssa.Value) bool { return v == ssa.Value(del) })
 			}
-		} else {
-			okClose, _ = eng.MustPass(eng.After(del), isClose)
-		}
-		c.CheckAt(rule, key+":socket-closed", del, okClose, "the outbound socket returned by the deletion is not closed on every path: the descriptor leaks")
-		// the key deleted is the key inserted: both derive from String() of the same address parameter of Add
-		add := g.Parent()
-		if add != nil {
-			var set *ssa.Call
-			for _, cl := range eng.Calls(add) {
-				if call, ok := cl.(*ssa.Call); ok && eng.CalleeName(&call.Call) == "(*service.natmap).set" {
-					set = call
+			okClose := false
+			if len(nonNil) > 0 {
+				okClose = true
+				for _, e := range sortedEdges(nonNil) {
+					if ok, _ := eng.MustPass(edgePoint(e), isClose); !ok {
+						okClose = false
+					}
 				}
+			} else {
+				okClose, _ = eng.MustPass(eng.After(del), isClose)
 			}
-			if set != nil {
-				k1 := keyAddrOrigin(c, eng.Arg(&set.Call, 0))
-				k2 := keyAddrOrigin(c, eng.Arg(&del.Call, 0))
-				c.CheckAt(rule, key+":deletes-the-key-it-inserted", del, k1 != nil && k1 == k2, fmt.Sprintf("the entry is inserted under String() of %s but deleted under String() of %s", valStr(p, k1), valStr(p, k2)))
-			}
+			c.CheckAt(rule, key+":socket-closed", del, okClose, "the outbound socket returned by the deletion is not closed on every path: the descriptor leaks")
 		}
 	}
 	// reply loops leave only through the timeout classification
-	for _, rl := range replyLoopFns(c) {
+	for _, rl := range m.replyFns {
 		loops := eng.Loops(rl)
 		if !c.Floor(rule, "loops in "+short(rl), len(loops), 1) {
 			continue
 		}
 		for _, l := range loops {
 			for i, e := range l.Exits {
-				iff, ok := e.From.Instrs[len(e.From.Instrs)-1].(*ssa.If)
-				good := false
-				why := "exit edge is not a test of the expiry flag"
-				if ok {
-					if u, isU := iff.Cond.(*ssa.UnOp); isU && u.Op == token.MUL {
-						if cell := eng.CellRoot(u.X); cell != nil {
-							good = true
-							for _, st := range p.CellStores(cell) {
-								if cst, isC := st.Val.(*ssa.Const); isC && cst.Value != nil && cst.Value.ExactString() == "false" {
-									continue
-								}
-								// a store of true must be cut by the true edge of a (net.Error).Timeout() test
-								f := st.Parent()
-								tEdges, _ := eng.BoolEdges(f, func(v ssa.Value) bool {
-									cc, ok := v.(*ssa.Call)
-									return ok && eng.CalleeName(&cc.Call) == "(net.Error).Timeout"
-								})
-								if len(tEdges) == 0 || !eng.Cut(f, st.Block(), tEdges) {
-									good = false
-									why = "the expiry flag is set at " + p.IPos(st) + " on a path that is not the Timeout() classification of a read error"
-								}
-							}
-						}
-					}
-				}
+				good, why := expiryExit(c, rl, e)
 				c.Check(rule, fmt.Sprintf("%s:loop-exit#%d", short(rl), i), blockPos(p, e.From), good, "the reply loop can end for a reason other than deadline expiry ("+why+"): the association would be torn down while it is still promised to the client")
 			}
 		}
 	}
 }
 
-// keyAddrOrigin: v == X.String() → X (resolved).
-func keyAddrOrigin(c *Ctx, v ssa.Value) ssa.Value {
-	call, ok := c.P.Resolve(v).(*ssa.Call)
-	if !ok || eng.MethodName(&call.Call) != "String" {
-		return nil
+// expiryExit: the loop-exit edge is the true edge of a boolean that is true only when a read error was classified by
+// (net.Error).Timeout(): a flag variable set on that edge, a helper's bool result established there, or the call itself.
+func expiryExit(c *Ctx, rl *ssa.Function, e eng.Edge) (bool, string) {
+	p := c.P
+	iff, ok := e.From.Instrs[len(e.From.Instrs)-1].(*ssa.If)
+	if !ok {
+		return false, "exit edge is not a conditional"
 	}
-	os := c.P.Origins(eng.Receiver(&call.Call), eng.Plain)
-	if len(os) != 1 {
-		return nil
+	isTimeoutCall := func(call *ssa.Call) bool { return eng.CalleeName(&call.Call) == "(net.Error).Timeout" }
+	g := c.BoolGuard(isTimeoutCall, true)
+	cond := iff.Cond
+	neg := false
+	if u, isU := cond.(*ssa.UnOp); isU && u.Op == token.NOT {
+		cond, neg = u.X, true
 	}
-	return os[0]
+	exitOnTrue := (e.From.Succs[0] == e.To) != neg
+	if !exitOnTrue {
+		return false, "the loop is left when the expiry condition is false"
+	}
+	// (1) a flag cell: every store of a non-false value is behind the Timeout()==true guard (deeply)
+	if u, isU := cond.(*ssa.UnOp); isU && u.Op == token.MUL {
+		if cell := eng.CellRoot(u.X); cell != nil {
+			for _, st := range p.CellStores(cell) {
+				if cst, isC := st.Val.(*ssa.Const); isC && cst.Value != nil && cst.Value.ExactString() == "false" {
+					continue
+				}
+				f := st.Parent()
+				if cst, isC := st.Val.(*ssa.Const); isC && cst.Value != nil && cst.Value.ExactString() == "true" {
+					if ed := g.Edges(f); len(ed) == 0 || !eng.Cut(f, st.Block(), ed) {
+						return false, "the expiry flag is set at " + p.IPos(st) + " on a path that is not the Timeout() classification of a read error"
+					}
+					continue
+				}
+				// flag assigned from a helper's bool result
+				if !boolEstablishedBy(c, st.Val, g) {
+					return false, "the expiry flag is assigned at " + p.IPos(st) + " from a value that is not the Timeout() classification"
+				}
+			}
+			return true, ""
+		}
+	}
+	// (2) the condition is directly a bool established by the guard
+	if boolEstablishedBy(c, cond, g) {
+		return true, ""
+	}
+	return false, "exit edge is not a test of the expiry classification"
+}
+
+// boolEstablishedBy: v is true only behind guard g: the guard call itself, or result of a helper all of whose true-returns are behind g.
+func boolEstablishedBy(c *Ctx, v ssa.Value, g *Guard) bool {
+	p := c.P
+	ok, _ := p.AllFrom(v, eng.OriginOpts{ThroughConvert: true}, func(x ssa.Value) bool {
+		if cst, isC := x.(*ssa.Const); isC && cst.Value != nil && cst.Value.ExactString() == "false" {
+			return true
+		}
+		cc, idx, isR := eng.AsResult(x)
+		if !isR {
+			return false
+		}
+		if eng.CalleeName(&cc.Call) == "(net.Error).Timeout" {
+			return true
+		}
+		h := singleRepoCallee(c, cc)
+		if h == nil {
+			return false
+		}
+		// every return whose result idx may be true is behind the guard
+		edges := g.Edges(h)
+		for _, r := range eng.Returns(h) {
+			if idx >= len(r.Results) {
+				return false
+			}
+			rv := r.Results[idx]
+			if cst, isC := rv.(*ssa.Const); isC && cst.Value != nil && cst.Value.ExactString() == "false" {
+				continue
+			}
+			if cst, isC := rv.(*ssa.Const); isC && cst.Value != nil && cst.Value.ExactString() == "true" {
+				if len(edges) == 0 || !eng.Cut(h, r.Block(), edges) {
+					return false
+				}
+				continue
+			}
+			if !boolEstablishedBy(c, rv, g) && !isAndWithTimeout(rv) {
+				return false
+			}
+		}
+		return true
+	})
+	return ok
+}
+
+// isAndWithTimeout: `ok && netErr.Timeout()` lowered to a phi [false, Timeout()].
+func isAndWithTimeout(v ssa.Value) bool {
+	ph, ok := v.(*ssa.Phi)
+	if !ok {
+		return false
+	}
+	hasT := false
+	for _, e := range ph.Edges {
+		if cst, isC := e.(*ssa.Const); isC && cst.Value != nil && cst.Value.ExactString() == "false" {
+			continue
+		}
+		if cc, isCall := e.(*ssa.Call); isCall && eng.CalleeName(&cc.Call) == "(net.Error).Timeout" {
+			hasT = true
+			continue
+		}
+		return false
+	}
+	return hasT
 }
 
 // C14.SOLEDELETER
 func ruleSoleDeleter(c *Ctx) {
 	p := c.P
+	m := getUDPModel(c, "SOLEDELETER")
+	if m == nil {
+		return
+	}
 	assoc := map[*ssa.Function]bool{}
-	for _, g := range assocGoroutines(c) {
+	for _, g := range m.assocGo {
 		assoc[g] = true
+		for _, h := range c.NewRegion(g, 2, m.stopFn(c)).Fns {
+			assoc[h] = true
+		}
 	}
 	nDel, nSet := 0, 0
-	for _, acc := range p.FieldAccesses(natmapT, "keyConn") {
+	for _, acc := range p.FieldAccesses(m.mapT, m.mapField) {
 		if !acc.Write || acc.Fresh {
 			continue
 		}
-		// which kind of mutation?
 		fa := acc.Ins.(*ssa.FieldAddr)
 		for _, r := range *fa.Referrers() {
 			u, ok := r.(*ssa.UnOp)
@@ -233,35 +280,34 @@ func ruleSoleDeleter(c *Ctx) {
 				case *ssa.Call:
 					if _, isDel := isBuiltinCall(x, "delete"); isDel {
 						nDel++
-						c.CheckAt("SOLEDELETER", short(acc.Fn)+":delete", x, acc.Fn.Name() == "del", "table entries are removed outside the deletion helper: the owning association goroutine then finds nothing to close and its socket leaks")
+						c.CheckAt("SOLEDELETER", short(acc.Fn)+":delete", x, acc.Fn == m.del, "table entries are removed outside the deletion helper: the owning association goroutine then finds nothing to close and its socket leaks")
 					}
 				case *ssa.MapUpdate:
 					nSet++
-					c.CheckAt("SOLEDELETER", short(acc.Fn)+":insert", x, acc.Fn.Name() == "set", "table entries are inserted outside the insertion helper")
+					c.CheckAt("SOLEDELETER", short(acc.Fn)+":insert", x, acc.Fn == m.set || acc.Fn == m.add, "table entries are inserted outside Add / its insertion helper")
 				}
 			}
 		}
 	}
 	c.Floor("SOLEDELETER", "delete sites", nDel, 1)
 	c.Floor("SOLEDELETER", "insert sites", nSet, 1)
-	if del := p.Fn("(*service.natmap).del"); del != nil {
-		for _, s := range p.CallSitesOf(del) {
-			c.CheckAt("SOLEDELETER", "del-caller:"+short(s.Fn), s.Ins, assoc[s.Fn], "the deletion helper is called from outside an association goroutine")
+	if m.del != nil {
+		for _, s := range p.CallSitesOf(m.del) {
+			c.CheckAt("SOLEDELETER", "delete-caller:"+short(s.Fn), s.Ins, assoc[s.Fn], "the deletion helper is called from outside an association goroutine")
 		}
 	}
-	if set := p.Fn("(*service.natmap).set"); set != nil {
-		for _, s := range p.CallSitesOf(set) {
-			ok := s.Fn.Name() == "Add" && s.Fn.Signature.Recv() != nil
-			c.CheckAt("SOLEDELETER", "set-caller:"+short(s.Fn), s.Ins, ok, "the insertion helper is called from outside Add: an entry without an owning goroutine is never reclaimed")
+	if m.set != nil {
+		for _, s := range p.CallSitesOf(m.set) {
+			c.CheckAt("SOLEDELETER", "insert-caller:"+short(s.Fn), s.Ins, s.Fn == m.add, "the insertion helper is called from outside Add: an entry without an owning goroutine is never reclaimed")
 		}
 	}
 }
 
-// deadlineFns: natconn methods that store the readDeadline field.
-func deadlineExtenders(c *Ctx) []*ssa.Function {
+// deadlineExtenders: association methods (and their helpers) that store the deadline field.
+func deadlineExtenders(c *Ctx, m *udpModel) []*ssa.Function {
 	seen := map[*ssa.Function]bool{}
 	var out []*ssa.Function
-	for _, st := range c.P.FieldStores(natconnT, "readDeadline") {
+	for _, st := range c.P.FieldStores(m.connT, m.dlField) {
 		if !st.Fresh && !seen[st.Fn] {
 			seen[st.Fn] = true
 			out = append(out, st.Fn)
@@ -273,60 +319,76 @@ func deadlineExtenders(c *Ctx) []*ssa.Function {
 // C14.ARM
 func ruleArm(c *Ctx) {
 	p := c.P
-	ext := deadlineExtenders(c)
+	m := getUDPModel(c, "ARM")
+	if m == nil {
+		return
+	}
+	ext := deadlineExtenders(c, m)
 	if !c.Floor("ARM", "functions that extend the association deadline", len(ext), 1) {
 		return
 	}
-	wt := fnByMethod(c, "service", natconnT, "WriteTo")
-	if wt == nil {
-		c.Undecided("ARM", "anchor:natconn.WriteTo", "-", "natconn has no WriteTo method: writes through an association do not pass a deadline hook")
-		return
-	}
-	var armCalls []ssa.Instruction
-	for _, cl := range eng.Calls(wt) {
-		for _, callee := range repoCallees(c, cl) {
-			for _, e := range ext {
-				if callee == e {
-					armCalls = append(armCalls, cl)
-				}
+	wt := m.connWrite
+	isExt := func(ins ssa.Instruction) bool {
+		cl, ok := ins.(*ssa.Call)
+		if !ok {
+			return false
+		}
+		for _, e := range ext {
+			if callTo(c, cl, e) {
+				return true
 			}
 		}
+		_, isSt := isStoreToField(ins, m.connT, m.dlField)
+		return isSt
 	}
-	n := 0
-	for _, cl := range eng.Calls(wt) {
-		call, ok := cl.(*ssa.Call)
-		if !ok || eng.CalleeName(&call.Call) != "(net.PacketConn).WriteTo" {
+	isSend := func(ins ssa.Instruction) bool {
+		cl, ok := ins.(*ssa.Call)
+		return ok && eng.CalleeName(&cl.Call) == "(net.PacketConn).WriteTo"
+	}
+	reg := c.NewRegion(wt, 2, func(h *ssa.Function) bool { return eng.PkgPathOf(h) != eng.Mod+"/service" })
+	n := len(reg.FindCalls(func(nm string, _ *ssa.Call) bool { return nm == "(net.PacketConn).WriteTo" }))
+	c.Floor("ARM", "underlying sends in "+short(wt), n, 1)
+	// on every path, the deadline hook runs before the underlying send can run
+	armedCalls := func(ins ssa.Instruction) bool {
+		cl, ok := ins.(*ssa.Call)
+		if !ok {
+			return false
+		}
+		for _, e := range ext {
+			if callTo(c, cl, e) {
+				return true
+			}
+		}
+		return false
+	}
+	ok, bad := reg.BeforeDeep(armedCalls, isSend)
+	c.Check("ARM", short(wt)+":deadline-extended-before-send", p.Pos(wt.Pos()), ok, fmt.Sprintf("a datagram can be sent through the association (%s) without the deadline hook having run first (e.g. only after a successful send): an association whose first send fails never gets a deadline and is never reclaimed", p.IPos(bad)))
+	_ = isExt
+	// the hook is given the destination address of this write
+	for _, cl := range reg.Calls() {
+		call, isC := cl.(*ssa.Call)
+		if !isC || !armedCalls(call) {
 			continue
 		}
-		n++
-		ok2 := false
-		for _, a := range armCalls {
-			if eng.Dominates(a, call) {
-				ok2 = true
-			}
-		}
-		c.CheckAt("ARM", short(wt)+":deadline-extended-before-send", call, ok2, "a datagram can be sent through the association without the deadline having been extended first (e.g. only after a successful send): an association whose first send fails never gets a deadline and is never reclaimed")
-	}
-	c.Floor("ARM", "underlying sends in "+short(wt), n, 1)
-	// the address used to classify DNS is the address being written
-	for _, a := range armCalls {
-		cc := a.(ssa.CallInstruction).Common()
 		okAddr := false
-		for i := range cc.Args {
+		for i, ar := range call.Call.Args {
 			if i == 0 {
 				continue
 			}
-			if p.AnyFrom(cc.Args[i], eng.Plain, func(v ssa.Value) bool { return eng.IsParam(v, wt, 2) }) {
+			if g, _ := p.AllFrom(ar, deepF, func(v ssa.Value) bool {
+				pa, isP := v.(*ssa.Parameter)
+				return isP && pa.Parent() == wt && pa.Type().String() == "net.Addr"
+			}); g {
 				okAddr = true
 			}
 		}
-		c.CheckAt("ARM", short(wt)+":deadline-hook-gets-destination", a, okAddr, "the deadline hook is not given the destination address of this write")
+		c.CheckAt("ARM", short(call.Parent())+":deadline-hook-gets-destination", call, okAddr, "the deadline hook is not given the destination address of this write")
 	}
-	// every target write in the datagram function goes through natconn.WriteTo (not the embedded conn directly)
-	if dg := datagramFn(c); dg != nil {
-		for _, cl := range eng.Calls(dg) {
+	// every target write in the datagram region goes through the association's WriteTo (not the raw socket)
+	if a := findUDP(c, "ARM"); a != nil {
+		for _, cl := range a.R.Calls() {
 			if eng.CalleeName(cl.Common()) == "(net.PacketConn).WriteTo" {
-				c.CheckAt("ARM", short(dg)+":writes-through-association", cl, false, "the datagram function writes to the target through the raw socket, bypassing the association's deadline hook")
+				c.CheckAt("ARM", short(cl.Parent())+":writes-through-association", cl, false, "the datagram code writes to the target through the raw socket, bypassing the association's deadline hook")
 			}
 		}
 	}
@@ -335,10 +397,14 @@ func ruleArm(c *Ctx) {
 // C14.MONOTONE
 func ruleMonotone(c *Ctx) {
 	p := c.P
+	m := getUDPModel(c, "MONOTONE")
+	if m == nil {
+		return
+	}
 	n := 0
 	for _, f := range p.FnsIn("service") {
 		root := eng.Root(f)
-		if root.Signature.Recv() == nil || eng.TypeName(root.Signature.Recv().Type()) != natconnT {
+		if root.Signature.Recv() == nil || eng.TypeName(root.Signature.Recv().Type()) != m.connT {
 			continue
 		}
 		for _, cl := range eng.Calls(f) {
@@ -350,7 +416,6 @@ func ruleMonotone(c *Ctx) {
 			v := p.Resolve(eng.Arg(&call.Call, 0))
 			key := short(f) + ":SetReadDeadline"
 			if vc, isCall := v.(*ssa.Call); isCall && eng.CalleeName(&vc.Call) == "time.Now" {
-				// immediate expiry: only inside a function literal handed to sync.Once.Do, reachable from the read hook
 				inOnce := false
 				if par := f.Parent(); par != nil {
 					for _, pc := range eng.Calls(par) {
@@ -361,33 +426,28 @@ func ruleMonotone(c *Ctx) {
 						}
 					}
 				}
-				fromWrite := false
-				if wt := fnByMethod(c, "service", natconnT, "WriteTo"); wt != nil {
-					fromWrite = c.P.Reach(c.L(), wt)[f]
-				}
+				fromWrite := c.P.Reach(c.L(), m.connWrite)[f]
 				c.CheckAt("MONOTONE", key+":immediate-expiry", call, inOnce && !fromWrite, "an immediate deadline (time.Now()) is set outside the one-shot fast-close latch or on the write path: the association's deadline can move earlier")
 				continue
 			}
-			// derived deadline: must be installed only on v.After(readDeadline) and recorded
 			isAfter := func(x ssa.Value) bool {
 				ac, ok := x.(*ssa.Call)
 				if !ok || eng.CalleeName(&ac.Call) != "(time.Time).After" {
 					return false
 				}
-				return p.Resolve(ac.Call.Args[0]) == v && p.AnyFrom(ac.Call.Args[1], eng.Plain, func(y ssa.Value) bool { return eng.IsFieldLoad(y, natconnT, "readDeadline") })
+				return p.Resolve(ac.Call.Args[0]) == v && p.AnyFrom(ac.Call.Args[1], eng.Plain, func(y ssa.Value) bool { return eng.IsFieldLoad(y, m.connT, m.dlField) })
 			}
 			tEdges, _ := eng.BoolEdges(f, isAfter)
 			c.CheckAt("MONOTONE", key+":only-when-later", call, len(tEdges) > 0 && eng.Cut(f, call.Block(), tEdges), "a new read deadline is installed without testing that it is later than the current one: the deadline can move earlier")
 			recorded := false
 			for _, b := range f.Blocks {
 				for _, ins := range b.Instrs {
-					if st, ok := isStoreToField(ins, natconnT, "readDeadline"); ok && p.Resolve(st.Val) == v && len(tEdges) > 0 && eng.Cut(f, b, tEdges) {
+					if st, ok := isStoreToField(ins, m.connT, m.dlField); ok && p.Resolve(st.Val) == v && len(tEdges) > 0 && eng.Cut(f, b, tEdges) {
 						recorded = true
 					}
 				}
 			}
-			c.CheckAt("MONOTONE", key+":recorded", call, recorded, "the installed deadline is not recorded in readDeadline on the same edge: later comparisons use a stale value")
-			// v = time.Now().Add(timeout)
+			c.CheckAt("MONOTONE", key+":recorded", call, recorded, "the installed deadline is not recorded in the association's deadline field on the same edge: later comparisons use a stale value")
 			okForm := false
 			if ac, ok := v.(*ssa.Call); ok && eng.CalleeName(&ac.Call) == "(time.Time).Add" {
 				if nc, ok := p.Resolve(ac.Call.Args[0]).(*ssa.Call); ok && eng.CalleeName(&nc.Call) == "time.Now" {
@@ -398,47 +458,54 @@ func ruleMonotone(c *Ctx) {
 		}
 	}
 	c.Floor("MONOTONE", "SetReadDeadline calls in association methods", n, 2)
-	// stores to readDeadline happen only in the extenders
-	for _, st := range p.FieldStores(natconnT, "readDeadline") {
+	for _, st := range p.FieldStores(m.connT, m.dlField) {
 		if st.Fresh {
 			continue
 		}
 		root := eng.Root(st.Fn)
-		ok := root.Signature.Recv() != nil && eng.TypeName(root.Signature.Recv().Type()) == natconnT
-		c.CheckAt("MONOTONE", "readDeadline-store:"+short(st.Fn), st.Ins, ok, "readDeadline is written outside the association's own methods")
+		ok := root.Signature.Recv() != nil && eng.TypeName(root.Signature.Recv().Type()) == m.connT
+		c.CheckAt("MONOTONE", "deadline-field-store:"+short(st.Fn), st.Ins, ok, "the association's deadline field is written outside the association's own methods")
 	}
 }
 
 // C14.SHUTDOWN
 func ruleShutdown(c *Ctx) {
 	p := c.P
-	_, packet := serveLoopFns(c)
-	if !c.Floor("SHUTDOWN", "datagram loops", len(packet), 1) {
+	m := getUDPModel(c, "SHUTDOWN")
+	if m == nil {
 		return
 	}
-	for _, f := range packet {
-		ds := deferCallNamed(f, "(*service.natmap).Close")
-		ok := false
-		for _, d := range ds {
-			if d.Block() == f.Blocks[0] {
-				ok = true
-				// the table closed is the table this loop created
-				isNew := func(v ssa.Value) bool {
-					cc, _, ok := eng.AsResult(v)
-					return ok && eng.CalleeName(&cc.Call) == "service.newNATmap"
+	a := findUDP(c, "SHUTDOWN")
+	if a == nil {
+		return
+	}
+	if m.closeAll == nil {
+		c.Undecided("SHUTDOWN", "anchor:table-close", "-", "the association table has no method that ranges over its entries")
+		return
+	}
+	f := a.loopFn
+	okDefer := false
+	for _, b := range f.Blocks {
+		for _, ins := range b.Instrs {
+			d, ok := ins.(*ssa.Defer)
+			if !ok || !callTo(c, d, m.closeAll) && !(qDefer(d, isCallTo(c, m.closeAll))) {
+				continue
+			}
+			// registered before the receive loop: dominates the listener read
+			if a.readFrom != nil && eng.Dominates(d, a.readFrom) && eng.InnermostLoop(eng.Loops(f), d.Block()) == nil {
+				okDefer = true
+				if callTo(c, d, m.closeAll) && m.newMap != nil {
+					same, _ := p.AllFrom(d.Call.Args[0], eng.Plain, func(v ssa.Value) bool {
+						cc, _, ok := eng.AsResult(v)
+						return ok && callTo(c, cc, m.newMap)
+					})
+					c.CheckAt("SHUTDOWN", short(f)+":closes-own-table", d, same, "the deferred Close is not on the table created by this loop")
 				}
-				same, _ := p.AllFrom(d.Call.Args[0], eng.Plain, isNew)
-				c.CheckAt("SHUTDOWN", short(f)+":closes-own-table", d, same, "the deferred Close is not on the table created by this loop")
 			}
 		}
-		c.Check("SHUTDOWN", short(f)+":table-close-deferred-before-loop", p.Pos(f.Pos()), ok, "the datagram loop does not defer the association table's Close in its entry block: on listener shutdown associations are not expired and their goroutines and sockets linger")
 	}
-	cl := fnByMethod(c, "service", natmapT, "Close")
-	if cl == nil {
-		c.Undecided("SHUTDOWN", "anchor:natmap.Close", "-", "natmap has no Close method")
-		return
-	}
-	// a range loop over keyConn with SetReadDeadline in its body, under the write lock
+	c.Check("SHUTDOWN", short(f)+":table-close-deferred-before-loop", p.Pos(f.Pos()), okDefer, "the datagram loop does not defer the association table's Close before its receive loop: on listener shutdown associations are not expired and their goroutines and sockets linger")
+	cl := m.closeAll
 	okLoop := false
 	for _, l := range eng.Loops(cl) {
 		hasNext, hasDeadline := false, false
@@ -446,7 +513,7 @@ func ruleShutdown(c *Ctx) {
 		for b := range l.Body {
 			for _, ins := range b.Instrs {
 				if nx, ok := ins.(*ssa.Next); ok {
-					if rg, ok := nx.Iter.(*ssa.Range); ok && p.AnyFrom(rg.X, eng.Plain, func(v ssa.Value) bool { return eng.IsFieldLoad(v, natmapT, "keyConn") }) {
+					if rg, ok := nx.Iter.(*ssa.Range); ok && p.AnyFrom(rg.X, eng.Plain, func(v ssa.Value) bool { return eng.IsFieldLoad(v, m.mapT, m.mapField) }) {
 						hasNext = true
 					}
 				}
@@ -458,28 +525,29 @@ func ruleShutdown(c *Ctx) {
 		}
 		if hasNext && hasDeadline {
 			okLoop = true
-			c.CheckAt("SHUTDOWN", short(cl)+":under-write-lock", dl, c.L().Held(dl).HasW(natmapT+".RWMutex"), "entries are visited without the table's write lock")
-			// no early exit from the loop other than exhaustion
+			c.CheckAt("SHUTDOWN", short(cl)+":under-write-lock", dl, m.mapLock != "" && c.L().Held(dl).HasW(m.mapLock), "entries are visited without the table's write lock")
 			for i, e := range l.Exits {
-				_, isIf := e.From.Instrs[len(e.From.Instrs)-1].(*ssa.If)
-				okExit := isIf && e.From == l.Header
-				if isIf {
-					if ex, ok := e.From.Instrs[len(e.From.Instrs)-1].(*ssa.If).Cond.(*ssa.Extract); ok {
-						_, isNext := ex.Tuple.(*ssa.Next)
-						okExit = isNext
+				okExit := false
+				if iff, isIf := e.From.Instrs[len(e.From.Instrs)-1].(*ssa.If); isIf {
+					if ex, ok := iff.Cond.(*ssa.Extract); ok {
+						_, okExit = ex.Tuple.(*ssa.Next)
 					}
 				}
 				c.Check("SHUTDOWN", fmt.Sprintf("%s:visits-every-entry:exit#%d", short(cl), i), blockPos(p, e.From), okExit, "the shutdown loop can stop before every association was expired")
 			}
 		}
 	}
-	c.Check("SHUTDOWN", short(cl)+":expires-every-entry", p.Pos(cl.Pos()), okLoop, "natmap.Close does not range over the table setting a read deadline on each entry")
+	c.Check("SHUTDOWN", short(cl)+":expires-every-entry", p.Pos(cl.Pos()), okLoop, "the table's Close does not range over the table setting a read deadline on each entry")
 }
 
 // C14.DNS
 func ruleDNS(c *Ctx) {
 	p := c.P
-	ext := deadlineExtenders(c)
+	m := getUDPModel(c, "DNS")
+	if m == nil {
+		return
+	}
+	ext := deadlineExtenders(c, m)
 	found17 := false
 	for _, f := range ext {
 		for _, b := range f.Blocks {
@@ -496,11 +564,28 @@ func ruleDNS(c *Ctx) {
 			}
 		}
 	}
+	// the constant may also be a named package-level constant used through a helper: search the service package
+	if !found17 {
+		for _, f := range p.FnsIn("service") {
+			r := eng.Root(f)
+			if r.Signature.Recv() == nil || eng.TypeName(r.Signature.Recv().Type()) != m.connT {
+				continue
+			}
+			for _, b := range f.Blocks {
+				for _, ins := range b.Instrs {
+					for _, op := range ins.Operands(nil) {
+						if cst, ok := (*op).(*ssa.Const); ok && cst.Type().String() == "time.Duration" && cst.Value != nil && cst.Int64() == 17_000_000_000 {
+							found17 = true
+						}
+					}
+				}
+			}
+		}
+	}
 	c.Check("DNS", "dns-timeout-is-17s", "-", found17, "no 17 s duration constant in the deadline extension code")
-	// isDNS: compares the port of the String() of its parameter with "53"
 	var isDNSFn *ssa.Function
 	for _, f := range p.FnsIn("service") {
-		if f.Signature.Results().Len() == 1 && f.Signature.Results().At(0).Type().String() == "bool" && f.Signature.Params().Len() == 1 && f.Signature.Recv() == nil {
+		if f.Signature.Results().Len() == 1 && f.Signature.Results().At(0).Type().String() == "bool" && f.Signature.Params().Len() == 1 {
 			for _, b := range f.Blocks {
 				for _, ins := range b.Instrs {
 					if bo, ok := ins.(*ssa.BinOp); ok && bo.Op == token.EQL {
@@ -508,12 +593,7 @@ func ruleDNS(c *Ctx) {
 							if ex, ok := bo.X.(*ssa.Extract); ok && ex.Index == 1 {
 								if sc, ok := ex.Tuple.(*ssa.Call); ok && eng.CalleeName(&sc.Call) == "net.SplitHostPort" {
 									isDNSFn = f
-									fromParam := p.AnyFrom(sc.Call.Args[0], eng.OriginOpts{ThroughCalls: func(c2 *ssa.Call) []ssa.Value {
-										if eng.MethodName(&c2.Call) == "String" {
-											return []ssa.Value{eng.Receiver(&c2.Call)}
-										}
-										return nil
-									}}, func(v ssa.Value) bool { return eng.IsParam(v, f, 0) })
+									fromParam := p.AnyFrom(sc.Call.Args[0], eng.OriginOpts{ThroughCalls: stringOf}, func(v ssa.Value) bool { _, isP := v.(*ssa.Parameter); return isP })
 									c.CheckAt("DNS", short(f)+":port-of-parameter", bo, fromParam, "the port compared with 53 is not the port of the address passed in")
 								}
 							}
@@ -525,20 +605,17 @@ func ruleDNS(c *Ctx) {
 	}
 	c.Check("DNS", "dns-classifier-compares-port-53", "-", isDNSFn != nil, "no function classifies an address as DNS by comparing its port with \"53\"")
 	if isDNSFn != nil {
+		uses := false
 		for _, f := range ext {
-			uses := false
-			for _, cl := range eng.Calls(f) {
-				for _, callee := range repoCallees(c, cl) {
-					if callee == isDNSFn {
-						uses = true
-						okArg := p.AnyFrom(cl.Common().Args[0], eng.Plain, func(v ssa.Value) bool { _, ok := v.(*ssa.Parameter); return ok })
-						c.CheckAt("DNS", short(f)+":classifies-the-written-address", cl, okArg, "the DNS classification is not applied to the destination address parameter")
-					}
+			reg := c.NewRegion(f, 2, func(h *ssa.Function) bool { return eng.PkgPathOf(h) != eng.Mod+"/service" })
+			for _, cl := range reg.Calls() {
+				if call, ok := cl.(*ssa.Call); ok && callTo(c, call, isDNSFn) {
+					uses = true
+					okArg, _ := p.AllFrom(call.Call.Args[0], deepF, func(v ssa.Value) bool { _, ok := v.(*ssa.Parameter); return ok })
+					c.CheckAt("DNS", short(call.Parent())+":classifies-the-written-address", call, okArg, "the DNS classification is not applied to the destination address parameter")
 				}
 			}
-			c.Check("DNS", short(f)+":uses-classifier", p.Pos(f.Pos()), uses, "the deadline extension does not consult the DNS classifier")
 		}
+		c.Check("DNS", "deadline-extension-uses-classifier", "-", uses, "the deadline extension does not consult the DNS classifier")
 	}
-	_ = types.Typ
-	_ = strings.Contains
 }
